@@ -36,10 +36,18 @@ class VirtualLoop(asyncio.SelectorEventLoop):
         self.steps = 0
         self.max_steps = 0
         self.idle_hook = None
-        self.set_default_executor(InlineExecutor())
+        # loop time is relative to the SimClock value at loop creation so that float precision stays
+        # far below a microsecond whatever the simulated date is
+        self.base_us = simclock.CLOCK.us
+        self._clock_resolution = 1e-6
+        self._default_executor = InlineExecutor()
 
     def time(self) -> float:
-        return simclock.CLOCK.us / 1e6
+        return (simclock.CLOCK.us - self.base_us) / 1e6
+
+    def at_us(self, us: int) -> float:
+        """Loop time value for an absolute SimClock instant."""
+        return (us - self.base_us) / 1e6
 
     def run_in_executor(self, executor, func, *args):
         if executor is None or not isinstance(executor, InlineExecutor):
@@ -54,7 +62,7 @@ class VirtualLoop(asyncio.SelectorEventLoop):
         if not self._scheduled:
             return None, None
         when = self._scheduled[0]._when
-        return when, int(round(when * 1e6))
+        return when, self.base_us + int(round(when * 1e6))
 
     def _run_once(self) -> None:
         self.steps += 1
